@@ -25,6 +25,8 @@ pub struct RunRec {
 }
 
 pub struct Hist {
+    /// number of tamper operations that really changed a file
+    pub tampers_applied: usize,
     pub runs: Vec<RunRec>,
     pub poisoned: bool,
     pub diverged: Option<String>,
@@ -80,6 +82,7 @@ pub fn exec(case: &Case, ctx: &mut Ctx, rec: &mut Case) -> Hist {
     let env = ctx.env;
     tree::plant(&env.root, &case.project);
     let mut h = Hist {
+        tampers_applied: 0,
         runs: vec![],
         poisoned: false,
         diverged: None,
@@ -137,6 +140,7 @@ pub fn exec(case: &Case, ctx: &mut Ctx, rec: &mut Case) -> Hist {
             }
             Op::Tamper { path, kind, at } => {
                 if apply_tamper(&env.root, path, kind, *at) {
+                    h.tampers_applied += 1;
                     ctx.stats.count(&format!("fault.F9_tamper.{kind:?}"));
                 }
             }
